@@ -213,19 +213,51 @@ theorem C13_other_keys (ops : List (Op κ)) (t : Task) (k k' : κ) (km : Bool) (
   · exact (huniq false).1
   · rfl
 
-/-- **Context separation, part 2: keys of un-nested contexts never coincide**, and `task.name2id()` of one context
-shows none of the other's names (and all of its own). -/
-theorem C13_ctx_sep (c c' n n' : Str) (h : Sep c c') :
-    mkKey c n ≠ mkKey c' n' ∧ viewName c (mkKey c' n') = none ∧ viewName c (mkKey c n) = some n ∧
-    (mkKey c n = mkKey c n' → n = n') :=
-  ⟨mkKey_ne_of_sep c c' n n' h, viewName_other c c' n' h, viewName_own c n, mkKey_inj_name c n n'⟩
+/-- **Context separation, part 2 – the code as it is now** (keys are the tuples `(ctx_name, name)`, /repo ef1f444):
+keys of two *different* contexts never coincide, whatever dots the context names or the task names contain;
+`task.name2id()` of one context shows none of the other's names and all of its own; within a context different names
+are different keys. -/
+theorem C13_ctx_sep (c c' n n' : Str) (h : c ≠ c') :
+    keyOf current.tupleKeys c n ≠ keyOf current.tupleKeys c' n' ∧
+    viewOf current.tupleKeys c (keyOf current.tupleKeys c' n') = none ∧
+    viewOf current.tupleKeys c (keyOf current.tupleKeys c n) = some n ∧
+    (keyOf current.tupleKeys c n = keyOf current.tupleKeys c n' → n = n') := by
+  refine ⟨keyOf_tuple_ne c c' n n' h, ?_, ?_, ?_⟩
+  · show viewOf true c (keyOf true c' n') = none
+    rw [viewOf_tuple]
+    have : ¬ c' = c := fun e => h e.symm
+    simp [this]
+  · show viewOf true c (keyOf true c n) = some n
+    rw [viewOf_tuple]; simp
+  · intro e
+    simp only [current, keyOf, if_true, Prod.mk.injEq, true_and] at e
+    exact e
 
-/-- …but the prefix scheme does **not** separate *nested* context names (`scripts/a.py` and `scripts/a/b.py`):
-name `"b.x"` of `scripts.a` and name `"x"` of `scripts.a.b` are the same key, and `name2id()` of `scripts.a` lists the
-other context's name. -/
-theorem C13_ctx_sep_cex_nested :
-    mkKey "scripts.a".toList "b.x".toList = mkKey "scripts.a.b".toList "x".toList ∧
-    viewName "scripts.a".toList (mkKey "scripts.a.b".toList "x".toList) = some "b.x".toList := by
+/-- **Regression statement about the pre-fix key scheme** (`f"{ctx}.{name}"` + `startswith`): it separated contexts
+only when neither dotted context name is a prefix of the other. -/
+theorem C13_regress_ctx_sep_partial (c c' n n' : Str) (h : Sep c c') :
+    keyOf preFix.tupleKeys c n ≠ keyOf preFix.tupleKeys c' n' ∧
+    viewOf preFix.tupleKeys c (keyOf preFix.tupleKeys c' n') = none ∧
+    viewOf preFix.tupleKeys c (keyOf preFix.tupleKeys c n) = some n ∧
+    (keyOf preFix.tupleKeys c n = keyOf preFix.tupleKeys c n' → n = n') := by
+  refine ⟨?_, ?_, ?_, ?_⟩
+  · intro e
+    simp only [preFix, keyOf, Bool.false_eq_true, if_false, Prod.mk.injEq, and_true] at e
+    exact mkKey_ne_of_sep c c' n n' h e
+  · simp only [preFix, viewOf, keyOf, Bool.false_eq_true, if_false]; exact viewName_other c c' n' h
+  · simp only [preFix, viewOf, keyOf, Bool.false_eq_true, if_false]; exact viewName_own c n
+  · intro e
+    simp only [preFix, keyOf, Bool.false_eq_true, if_false, Prod.mk.injEq, and_true] at e
+    exact mkKey_inj_name c n n' e
+
+/-- **Regression witness (C13-F2 / F2b, fixed by /repo ef1f444)**: with the pre-fix scheme the *nested* context names
+of `scripts/a.py` and `scripts/a/b.py` collide – name `"b.x"` of `scripts.a` and name `"x"` of `scripts.a.b` are one
+key, and `name2id()` of `scripts.a` lists the other context's name; with tuple keys neither happens. -/
+theorem C13_regress_ctx_sep_nested :
+    (keyOf false "scripts.a".toList "b.x".toList = keyOf false "scripts.a.b".toList "x".toList ∧
+     viewOf false "scripts.a".toList (keyOf false "scripts.a.b".toList "x".toList) = some "b.x".toList) ∧
+    (keyOf true "scripts.a".toList "b.x".toList ≠ keyOf true "scripts.a.b".toList "x".toList ∧
+     viewOf true "scripts.a".toList (keyOf true "scripts.a.b".toList "x".toList) = none) := by
   decide
 
 /-- **Foreign tasks.**  The only way a task that pyscript did not start gets onto the reaper queue is its own
@@ -248,7 +280,7 @@ theorem C13_foreign (ops : List (Op κ)) (op : Op κ) (x : Task)
       rcases hp with hp | hp
       · exact hnew hp
       · -- delivered earlier: then x was dequeued earlier; it cannot re-enter by a reap step
-        simp only [step, reapStep] at hin
+        simp only [step, reapStep, reapStepCfg] at hin
         split at hin
         · exact hnew hin
         · split at hin
@@ -391,11 +423,11 @@ theorem C13_regress_decorator_legacy_race :
   decide
 
 /-- **The reaper finishes the job.**  Under the runtime assumption that a cancelled task ends at its next suspension
-point (`reapCycle` = deliver, then the task's `finally`), once the reaper has worked through its queue the queue is
-empty and every task that was on it has ended. -/
-theorem C13_reaper_drains (s : St κ) (hb : busy s = false) :
+point (`reapCycle` = deliver, then that task's `finally`), once the reaper has worked through its queue the queue is
+empty and every task that was on it has ended – from any state: the reaper (/repo 32185a9) never waits. -/
+theorem C13_reaper_drains (s : St κ) :
     (drain s.reaperQ.length s).reaperQ = [] ∧ ∀ t ∈ s.reaperQ, (drain s.reaperQ.length s).live t = false := by
-  obtain ⟨a, _, c, _⟩ := drain_spec s.reaperQ.length s hb rfl
+  obtain ⟨a, c, _⟩ := drain_spec s.reaperQ.length s rfl
   exact ⟨a, c⟩
 
 /-! non-vacuity of the hypotheses used above -/
